@@ -32,6 +32,7 @@ type desc struct {
 	ku       int // 0 = no key usage extension, 1 = includes certSign, 2 = without certSign
 	permit   []string
 	eku      []gx509.ExtKeyUsage
+	unkEKU   bool // the extension also lists a usage this library has no name for
 	critUnk  bool
 	dns      []string
 	ips      []string
@@ -88,6 +89,9 @@ func build(d desc) (*cert, error) {
 		SubjectKeyId:          [][]byte{ski(d.subjKey), nil, []byte("unrelated-subject-key-id")}[d.ski],
 		DNSNames:              d.dns,
 		ExtKeyUsage:           d.eku,
+	}
+	if d.unkEKU {
+		tmpl.UnknownExtKeyUsage = []asn1.ObjectIdentifier{{1, 3, 6, 1, 4, 1, 55555, 1, 1}}
 	}
 	for _, ip := range d.ips {
 		tmpl.IPAddresses = append(tmpl.IPAddresses, net.ParseIP(ip))
@@ -220,6 +224,25 @@ func buildUniverse() (*universe, error) {
 		lA.with(func(d *desc) {
 			d.id = "L-byA-both"
 			d.eku = []gx509.ExtKeyUsage{gx509.ExtKeyUsageServerAuth, gx509.ExtKeyUsageClientAuth}
+		}),
+		lA.with(func(d *desc) {
+			d.id = "L-byA-msSGC"
+			d.eku = []gx509.ExtKeyUsage{gx509.ExtKeyUsageMicrosoftServerGatedCrypto}
+		}),
+		lA.with(func(d *desc) {
+			d.id = "L-byA-nsSGC"
+			d.eku = []gx509.ExtKeyUsage{gx509.ExtKeyUsageNetscapeServerGatedCrypto}
+		}),
+		lA.with(func(d *desc) {
+			d.id = "L-byA-msSGC+code"
+			d.eku = []gx509.ExtKeyUsage{gx509.ExtKeyUsageCodeSigning, gx509.ExtKeyUsageMicrosoftServerGatedCrypto}
+		}),
+		lA.with(func(d *desc) { d.id = "L-byA-email"; d.eku = []gx509.ExtKeyUsage{gx509.ExtKeyUsageEmailProtection} }),
+		lA.with(func(d *desc) { d.id = "L-byA-unknownEKU"; d.unkEKU = true }),
+		lA.with(func(d *desc) {
+			d.id = "L-byA-unknownEKU+client"
+			d.unkEKU = true
+			d.eku = []gx509.ExtKeyUsage{gx509.ExtKeyUsageClientAuth}
 		}),
 		lA.with(func(d *desc) { d.id = "L-byA-noAKI"; d.aki = 1 }),
 		lA.with(func(d *desc) { d.id = "L-byA-otherAKI"; d.aki = 2 }),
